@@ -19,6 +19,8 @@ type BrokerCfg struct {
 	NoSuback    bool
 	NoPingresp  bool
 	GrantedQoSCap byte                              // when Route: deliver with min(pub qos, granted)
+	PingrespDelay time.Duration                     // PINGRESP is sent that much later (virtual time)
+	AckDelay      time.Duration                     // PUBACK/PUBREC/PUBCOMP/PUBREL/SUBACK/UNSUBACK are sent that much later
 }
 
 type brokerSess struct {
@@ -192,6 +194,22 @@ func (b *Broker) Handler() func(s *Session, p *mqttref.Pkt) {
 			bs.gen++
 		}
 		b.mu.Unlock()
+		delay := time.Duration(0)
+		switch p.Type {
+		case mqttref.PINGREQ:
+			delay = b.Cfg.PingrespDelay
+		case mqttref.PUBLISH, mqttref.PUBREL, mqttref.PUBREC, mqttref.SUBSCRIBE, mqttref.UNSUBSCRIBE:
+			delay = b.Cfg.AckDelay
+		}
+		if delay > 0 && !closeAfter {
+			outs := out
+			time.AfterFunc(delay, func() {
+				for _, o := range outs {
+					s.MQSend(o)
+				}
+			})
+			return
+		}
 		for _, o := range out {
 			s.MQSend(o)
 		}
